@@ -25,7 +25,7 @@ RULE = ("histories of <= 12 engine calls {add segment (1..4 Gaussian commands in
 ASSUMPTIONS = [
     "states compared with refsim at 1e-6 (post-selected homodyne: finite-squeezing POVM of the phase-space backends); fock (cutoff 9, low "
     "energy) at 5e-3 on first and second moments",
-    "bosonic engine: every Program restarts the simulator (finding F10, open): a bosonic state that equals the LAST segment run alone "
+    "bosonic engine: every Program restarts the simulator (finding F10, open): a bosonic state that equals the LAST Program run alone "
     "from vacuum is attributed to F10, any other deviation is a violation",
     "snapshots ignore Program.locked, RegRef.val and the values bound to free parameters (documented effects of running)",
     "numpy's global RNG is seeded identically before both sides of every comparison",
@@ -156,7 +156,8 @@ class World:
                     vals[o[2][0]] = o[3]["select"]
         return ref
 
-    def compare(self, b, state, segments, what):
+    def compare(self, b, state, segments, what, last_prog=1):
+        """``last_prog``: number of trailing segments that were submitted as the last Program (concatenated run: all of them)"""
         ref = self.model_state(segments)
         if b == "fock":
             from vf.props.c01 import tail_weight
@@ -172,10 +173,10 @@ class World:
         d = max(float(np.max(np.abs(mu - ref.mu))), float(np.max(np.abs(V - ref.V))))
         if d > tol:
             if b == "bosonic" and len(segments) > 1:
-                last = self.model_state(segments, start=len(segments) - 1)
+                last = self.model_state(segments, start=len(segments) - last_prog)
                 d2 = max(float(np.max(np.abs(mu - last.mu))), float(np.max(np.abs(V - last.V))))
                 if d2 <= tol:
-                    return self.ctx.fail("F10.bosonic_engine_restarts_per_program", "bosonic engine: state after %d segments equals the last segment run alone from vacuum" % len(segments))
+                    return self.ctx.fail("F10.bosonic_engine_restarts_per_program", "bosonic engine: state after %d segments equals the last Program run alone from vacuum" % len(segments))
             return self.ctx.fail("%s.%s" % (what, b), "%s: state differs from the reference of the concatenated segments by %.3g (%d segments)" % (what, d, len(segments)))
         return None
 
@@ -228,7 +229,7 @@ class World:
                 d = spec.snapshot_diff(sn, spec.snapshot(p))
                 if d:
                     return self.ctx.fail("run.mutated_program.%s" % b, "running changed the user's program: " + d)
-            r = self.compare(b, res.state, self.executed + segs, "compositional.%s" % mode)
+            r = self.compare(b, res.state, self.executed + segs, "compositional.%s" % mode, last_prog=len(segs) if mode == "concat" else 1)
             if r is not None:
                 return r
             if len(self.eng[b].run_progs) != len(self.progs[b]):
